@@ -718,7 +718,9 @@ func resultChecked(a *Analysis, s *Site, after *Site) bool {
 func runC19(cx *CheckCtx) {
 	w := cx.W
 	// a cheque is paid once: the ballot of the same id is removed before the payout
-	voteProtocol(cx, []string{"Cheque"})
+	// (every voting method shares the one ballot list: a method that removes another id's ballot — its
+	// RemoveVotes handed something else than the id it voted with — wipes a pending cheque)
+	voteProtocol(cx, []string{"Cheque", "AlphabetUpdate", "SetConfig", "InnerRingCandidateRemove"})
 	// … and the ballot box itself counts distinct members within the window (the rules on common.Vote,
 	// shared with C17/C03/C16): "once the Alphabet approves" is a count of distinct signers
 	runC17Common(cx, w)
